@@ -146,9 +146,11 @@ class ConvertRule(Contract):
         E.summaries["sigma.conversion.base:Backend.finish_query"] = s_finish
 
         def s_finalize(I, so, a, k):
-            I.E._c08_trace.append(("finalize", a[1], a[2], a[3], a[4]))
+            rec = ["finalize", a[1], a[2], a[3], a[4], None]
+            I.E._c08_trace.append(rec)
             may_fail(I, "finalize")
             r = I.fresh("finalized", "opaque", "Query")
+            rec[5] = r
             return r
         E.summaries["sigma.conversion.base:Backend.finalize_query"] = s_finalize
         E.summaries["sigma.conversion.base:Backend.init_processing_pipeline"] = lambda I, so, a, k: I.E._c08_trace.append(("init",))
@@ -215,10 +217,17 @@ class ConvertRule(Contract):
                 c.require(len(finals) == len(res), "every emitted query is finalized (post-processed) exactly once")
                 c.require([t[2] for t in finals] == list(range(len(finals))), "queries are finalized in order")
             else:
-                c.require(len(finals) == 0, "sub-queries of a correlation are not finalized unless the backend opts in")
+                c.require(not any(x is f[5] for x in res for f in finals), "the STORED queries - what a correlation rule embeds - are not finalized unless the backend opts in")
             out = rule.fields["_output"]
             t = ops.truth(I, out)
-            c.require(z3.If(ops.mk_bool_term(t), z3.BoolVal(r is res or r == res), z3.BoolVal(isinstance(r, list) and len(r) == 0)), "result == the finalized queries if the rule's output is enabled, else nothing")
+            if expect_final:
+                c.require(z3.If(ops.mk_bool_term(t), z3.BoolVal(r is res or r == res), z3.BoolVal(isinstance(r, list) and len(r) == 0)), "result == the finalized queries if the rule's output is enabled, else nothing")
+            else:
+                # taken from the property (C14: query post-processing on EVERY emitted query): a rule that is emitted on its own as well
+                # (generate) is emitted finalized - one finalisation per query, in order; without output nothing is finalized
+                emitted = isinstance(r, list) and len(r) == len(res) == len(finals) and all(x is f[5] for x, f in zip(r, finals)) and [f[2] for f in finals] == list(range(len(finals)))
+                c.require(z3.If(ops.mk_bool_term(t), z3.BoolVal(emitted), z3.BoolVal(isinstance(r, list) and len(r) == 0 and len(finals) == 0)),
+                          "a referenced rule that is emitted on its own as well is emitted finalized (every query once, in order); one that is not emitted is not finalized at all")
             c.require(inp["stored"].get("states") == states, "conversion states are stored on the rule")
 
     def raises(self, I, inp, exc):
